@@ -9,7 +9,7 @@ and through the extracted specification (Model/Spec.v via ocaml/oracle) and retu
   slack      |got - must| , |may_novel - got|
 Classification of a disagreement uses the executable signatures of harness/lib/cvsig.py.
 """
-import os, sys, json, collections
+import os, re, sys, json, collections
 from harness.lib import oracle as O, impl as I, cvgen as CG, cvsig as SG, rules as R
 sys.path.insert(0, os.path.join(os.path.dirname(os.path.dirname(os.path.abspath(__file__))), 'translate'))
 import expasy as _E
@@ -38,6 +38,8 @@ F_ADJ = 'C01-nola-adjacent-sites'
 F_FUSCRASH = 'C01-fusion-expand-crash'
 F_FUSALIGN = 'C01-fusion-align-crash'
 F_FUSJUNC = 'C02-fusion-junction-indel'
+F_FUSDEL2 = 'C02-fusion-frameshift-indel-pair'
+F_LASTOP = 'C02-lookahead-sees-stop'
 
 # ------------------------------------------------------------------ rule classes (from the repo's table)
 _RC = {}
@@ -161,6 +163,23 @@ def fusion_requests(c, run, by_tx, prots, peps):
         if run.get('fusion_must'):
             out.append(('cv_fusion_must_g', a, 'must', f['id']))
     return out
+
+def fusion_fs_coupling(c, f, by_tx):
+    """precondition of C02-fusion-frameshift-indel-pair: the fusion carries a FRAMESHIFTING indel A on the donor
+    side (donor exons before the breakpoint or the retained donor intron piece) and, downstream of A, another
+    indel B inside one of the fusion's sub-graphs (a retained intron piece or the acceptor part behind the
+    breakpoint).  Returns the length changes n of such indels A ([] = precondition not met)"""
+    from harness.lib import cvgen_fus as CF
+    fi = CF.fusion_inputs(c, f)
+    d = lambda r: len(r['alt']) - (r['e'] - r['s'])
+    bp, nm = fi['bp'], len(fi['mid'])
+    # (start, end, length change, donor side?, inside a sub-graph?) in coordinates of the fused backbone
+    rs = [(r['s'], r['e'], d(r), True, False) for r in by_tx.get(f['donor_tx'], []) if r['e'] <= bp] + \
+         [(bp + r['s'], bp + r['e'], d(r), r['e'] <= fi['nleft'], True) for r in fi['mrecs']] + \
+         [(bp + nm + r['s'] - fi['abp'], bp + nm + r['e'] - fi['abp'], d(r), False, True)
+          for r in by_tx.get(f['acc_tx'], []) if r['s'] >= fi['abp']]
+    return sorted(set(abs(a[2]) for a in rs if a[3] and a[2] % 3 != 0
+                      and any(b[4] and b[2] != 0 and b is not a and b[0] >= a[1] for b in rs)))
 
 def run_flags(run):
     """[sect, w2f] when the run uses an alt-translation flag, else None"""
@@ -301,6 +320,30 @@ def classify(evs):
                     alts = [(d1, d2) for d1 in (-1, 0, 1) for d2 in (-1, 0, 1) if (d1, d2) != (0, 0)]
                     oks = O.call_many([('cv_fusion_realizable_g', [a[0], a[1] + d1, '', [], a[4], a[5] + d2, extras]) for d1, d2 in alts])
                     junc = [x or any(o[k] for o in oks) for k, x in enumerate(junc)]
+            # C02-fusion-frameshift-indel-pair: the fusion carries a frameshifting donor-side indel followed by another
+            # indel inside one of its sub-graphs (fusion_fs_coupling) and the sequence is reported under a header naming
+            # that fusion.  Symptoms seen (docs/C02.md): the second indel ALONE spelled n bases short / long (deletion
+            # reaching n bases further upstream, insertion lacking a base), path cut off at an acceptor insertion,
+            # bases lost behind an acceptor-side insertion - too many shapes to model one by one, hence the coarse rule
+            del2 = [False] * len(extras)
+            if not run_flags(ev.run):
+                for f in ev.case.get('fusions', []):
+                    if fusion_fs_coupling(ev.case, f, ev.recs):
+                        for k, p in enumerate(extras):
+                            if any(h.startswith(f['id'] + '|') for h in ev.got.get(p, [])):
+                                del2[k] = True
+            # thrombin: the two-residue look-ahead (?=[^DE][^DE]) is matched against the translated string INCLUDING the
+            # stop symbol, so ...[AFGILTVM][AFGILTVWA]PR|X* is cleaved although only one residue follows
+            lastop = [False] * len(extras)
+            if ev.run['rule'] == 'thrombin' and not run_flags(ev.run):
+                idx = [k for k, p in enumerate(extras) if re.search(r'[AFGILTVM][AFGILTVWA]PR$', p)]
+                aa = 'ACFGHIKLMNPQRSTVWYU'
+                if idx:
+                    cands = [extras[k] + r for k in idx for r in aa]
+                    for x in ev.xs.values():
+                        for n, ok in enumerate(O.call('cv_realizable', [x, cands])):
+                            if ok:
+                                lastop[idx[n // len(aa)]] = True
             for k, p in enumerate(extras):
                 tag = None
                 if d14[k]:
@@ -309,8 +352,12 @@ def classify(evs):
                     tag = F_PEPSIN
                 elif junc[k]:
                     tag = F_FUSJUNC
+                elif del2[k]:
+                    tag = F_FUSDEL2
                 elif soft[k]:
                     tag = F_PEPSIN
+                elif lastop[k]:
+                    tag = F_LASTOP
                 ev.extra[p] = tag
 
 # ------------------------------------------------------------------ helpers for the property modules
